@@ -116,7 +116,14 @@ def scen_infl(case, tau_given=True, deg=False):
         tau = Real('add_correlation_time') if tau_given else None
         if tau_given:
             ip.assume(tau >= 0)
-        params = mkobj(repo, 'tempo.TempoParameters', _dt=dt, _dkmax=K, _add_correlation_time=tau, _epsrel=eps)
+        # the parameters object is built by the real constructor; the stored cutoff time is left free (tcut >= 0): the
+        # constructor only guarantees dkmax = ceil(round(tcut/dt)) (mem/* obligations), NOT tcut = dkmax*dt, and the
+        # documented meaning of the memory length is the step count dkmax
+        ip.assume(eps > 0)
+        params = mkobj_init(ip, repo, 'tempo.TempoParameters', kwargs={'dt': dt, 'epsrel': eps, 'dkmax': K, 'add_correlation_time': tau})
+        tc = Real('tcut')
+        ip.assume(tc >= 0)
+        params.fields['_tcut'] = tc
         acomm = Seq(n, lambda i: OP(i), 'ndarray')
         comm = Seq(n, lambda i: OM(i), 'ndarray')
         degp = None
